@@ -297,4 +297,344 @@ theorem metaInv_runSer (s : St) (ops : List Op) (h : MetaInv s) : MetaInv (runSe
   | nil => exact h
   | cons o os ih => exact ih _ (metaInv_stepSer s o h)
 
+
+/-! ### The recorder refines the ledger -/
+
+@[simp] theorem view_zero (m : Option Meta) : view 0 m = none := by
+  cases m <;> simp [view]
+
+theorem view_some_iff (n : Nat) (m : Option Meta) (r : Rec) :
+    view n m = some r ↔ (m = some r.m ∧ r.n = n ∧ 0 < n) := by
+  cases m with
+  | none => simp [view]
+  | some x =>
+    by_cases hn : n = 0
+    · subst hn; simp [view]
+    · simp only [view, hn, if_false]
+      constructor
+      · intro h
+        have : r = ⟨x, n⟩ := (Option.some.inj h).symm
+        subst this
+        exact ⟨rfl, rfl, by omega⟩
+      · rintro ⟨h1, h2, _⟩
+        cases r
+        simp_all
+
+theorem view_none_zero (n : Nat) (m : Option Meta) (hm : 0 < n → m.isSome) (h : view n m = none) :
+    n = 0 := by
+  cases m with
+  | none =>
+    by_cases hn : n = 0
+    · exact hn
+    · have := hm (by omega); simp at this
+  | some x =>
+    by_cases hn : n = 0
+    · exact hn
+    · simp [view, hn] at h
+
+/-- Invariant of the ledger: owed queries have a most recent query; so have the counters in
+flight; while an upload is in flight, a device with nothing owed has not been seen since the
+cut. -/
+structure LedgerInv (l : Ledger) : Prop where
+  owedMeta : ∀ d, 0 < l.owed d → (l.lastM d).isSome
+  flyMetaSome : ∀ f, l.flying = some f → ∀ d, 0 < f d → (l.flyMeta d).isSome
+  quiet : ∀ f, l.flying = some f → ∀ d, l.owed d = 0 → l.lastM d = l.flyMeta d
+
+/-- The recorder's state shows exactly what the ledger holds. -/
+structure Refines (s : St) (l : Ledger) : Prop where
+  pend : ∀ d, s.pending d = view (l.owed d) (l.lastM d)
+  paid : ∀ d, s.delivered d = l.paid d
+  flyNone : l.flying = none → s.inflight = []
+  flySome : ∀ f, l.flying = some f →
+    ∃ b, s.inflight = [b] ∧ ∀ d, b.recs d = view (f d) (l.flyMeta d)
+  reports : ∀ d, s.log.map (fun r => r d) = l.reports.map (fun r => r d)
+
+theorem ledgerInv_init : LedgerInv Ledger.init := by
+  constructor <;> simp [Ledger.init]
+
+theorem refines_init : Refines St.init Ledger.init := by
+  constructor <;> simp [St.init, Ledger.init, Recs.empty]
+
+theorem cnt_of_view (t : Recs) (d : Dev) (n : Nat) (m : Option Meta) (hm : 0 < n → m.isSome)
+    (h : t d = view n m) : cnt t d = n := by
+  unfold cnt
+  cases hv : view n m with
+  | none => rw [h, hv]; exact (view_none_zero n m hm hv).symm
+  | some r => rw [h, hv]; exact ((view_some_iff n m r).mp hv).2.1
+
+theorem stepSer_not_begin (s : St) (o : Op) (h : o ≠ .begin) : stepSer s o = step s o := by
+  cases o <;> simp_all [stepSer, blocked]
+
+theorem refines_stepSer (s : St) (l : Ledger) (o : Op) (hr : Refines s l) (hi : LedgerInv l) :
+    Refines (stepSer s o) (l.step o) ∧ LedgerInv (l.step o) := by
+  cases o with
+  | record k m =>
+    rw [stepSer_not_begin s _ (by simp)]
+    refine ⟨⟨?_, ?_, ?_, ?_, ?_⟩, ⟨?_, ?_, ?_⟩⟩
+    · intro d
+      by_cases hk : d = k
+      · subst hk
+        have hp := hr.pend d
+        simp only [step, record, Ledger.step, if_true]
+        cases hv : view (l.owed d) (l.lastM d) with
+        | none =>
+          have h0 := view_none_zero _ _ (hi.owedMeta d) hv
+          rw [hp, hv]
+          simp [put, view, h0]
+        | some r =>
+          obtain ⟨_, hn, _⟩ := (view_some_iff _ _ r).mp hv
+          rw [hp, hv]
+          simp [put, view, hn]
+      · have hp := hr.pend d
+        simp only [step, record, Ledger.step, hk, if_false]
+        cases s.pending k <;> simpa [put, hk] using hp
+    · intro d; simpa [step, Ledger.step] using hr.paid d
+    · intro h; simpa [step, Ledger.step] using hr.flyNone (by simpa [Ledger.step] using h)
+    · intro f h
+      simpa [step, Ledger.step] using hr.flySome f (by simpa [Ledger.step] using h)
+    · intro d; simpa [step, Ledger.step] using hr.reports d
+    · intro d hd
+      by_cases hk : d = k
+      · simp [Ledger.step, hk]
+      · simp only [Ledger.step, hk, if_false] at hd ⊢
+        exact hi.owedMeta d hd
+    · intro f h d hd
+      exact hi.flyMetaSome f (by simpa [Ledger.step] using h) d hd
+    · intro f h d hd
+      by_cases hk : d = k
+      · simp [Ledger.step, hk] at hd
+      · simp only [Ledger.step, hk, if_false] at hd ⊢
+        exact hi.quiet f (by simpa [Ledger.step] using h) d hd
+  | «begin» =>
+    cases hf : l.flying with
+    | some f =>
+      obtain ⟨b, hb, _⟩ := hr.flySome f hf
+      have : stepSer s .begin = s := by simp [stepSer, blocked, hb]
+      have hl : l.step .begin = l := by simp [Ledger.step, hf]
+      rw [this, hl]
+      exact ⟨hr, hi⟩
+    | none =>
+      have he := hr.flyNone hf
+      have : stepSer s .begin = step s .begin := by simp [stepSer, blocked, he]
+      rw [this]
+      refine ⟨⟨?_, ?_, ?_, ?_, ?_⟩, ⟨?_, ?_, ?_⟩⟩
+      · intro d; simp [step, Ledger.step, hf, Recs.empty]
+      · intro d; simpa [step, Ledger.step, hf] using hr.paid d
+      · intro h; simp [Ledger.step, hf] at h
+      · intro f h
+        simp [Ledger.step, hf] at h
+        subst h
+        refine ⟨⟨s.pending, s.last⟩, by simp [step, he], ?_⟩
+        intro d
+        simpa [Ledger.step, hf] using hr.pend d
+      · intro d; simpa [step, Ledger.step, hf] using hr.reports d
+      · intro d hd; simp [Ledger.step, hf] at hd
+      · intro f h d hd
+        simp [Ledger.step, hf] at h
+        subst h
+        simpa [Ledger.step, hf] using hi.owedMeta d hd
+      · intro f h d _
+        simp [Ledger.step, hf]
+  | endOk i =>
+    rw [stepSer_not_begin s _ (by simp)]
+    cases hf : l.flying with
+    | none =>
+      have he := hr.flyNone hf
+      have hs : step s (.endOk i) = s := by simp [step, he]
+      have hl : l.step (.endOk i) = l := by cases i <;> simp [Ledger.step, hf]
+      rw [hs, hl]; exact ⟨hr, hi⟩
+    | some f =>
+      obtain ⟨b, hb, hrec⟩ := hr.flySome f hf
+      cases i with
+      | succ j =>
+        have hs : step s (.endOk (j + 1)) = s := by simp [step, hb]
+        have hl : l.step (.endOk (j + 1)) = l := by simp [Ledger.step]
+        rw [hs, hl]; exact ⟨hr, hi⟩
+      | zero =>
+        have hcnt : ∀ d, cnt b.recs d = f d := fun d =>
+          cnt_of_view b.recs d (f d) (l.flyMeta d) (hi.flyMetaSome f hf d) (hrec d)
+        refine ⟨⟨?_, ?_, ?_, ?_, ?_⟩, ⟨?_, ?_, ?_⟩⟩
+        · intro d; simpa [step, hb, Ledger.step, hf] using hr.pend d
+        · intro d; simp [step, hb, Ledger.step, hf, hcnt d, hr.paid d]
+        · intro _; simp [step, hb]
+        · intro f' h; simp [Ledger.step, hf] at h
+        · intro d; simp [step, hb, Ledger.step, hf, hr.reports d, hrec d]
+        · intro d hd
+          simp only [Ledger.step, hf] at hd ⊢
+          exact hi.owedMeta d hd
+        · intro f' h; simp [Ledger.step, hf] at h
+        · intro f' h; simp [Ledger.step, hf] at h
+  | endFail i =>
+    rw [stepSer_not_begin s _ (by simp)]
+    cases hf : l.flying with
+    | none =>
+      have he := hr.flyNone hf
+      have hs : step s (.endFail i) = s := by simp [step, he]
+      have hl : l.step (.endFail i) = l := by cases i <;> simp [Ledger.step, hf]
+      rw [hs, hl]; exact ⟨hr, hi⟩
+    | some f =>
+      obtain ⟨b, hb, hrec⟩ := hr.flySome f hf
+      cases i with
+      | succ j =>
+        have hs : step s (.endFail (j + 1)) = s := by simp [step, hb]
+        have hl : l.step (.endFail (j + 1)) = l := by simp [Ledger.step]
+        rw [hs, hl]; exact ⟨hr, hi⟩
+      | zero =>
+        refine ⟨⟨?_, ?_, ?_, ?_, ?_⟩, ⟨?_, ?_, ?_⟩⟩
+        · intro d
+          have hp := hr.pend d
+          have hbd := hrec d
+          simp only [step, hb, List.getElem?_cons_zero, remerge, Ledger.step, hf]
+          cases hv : view (f d) (l.flyMeta d) with
+          | none =>
+            have h0 := view_none_zero _ _ (hi.flyMetaSome f hf d) hv
+            rw [hbd, hv]
+            simpa [h0] using hp
+          | some p =>
+            obtain ⟨hpm, hpn, hpos⟩ := (view_some_iff _ _ p).mp hv
+            rw [hbd, hv]
+            cases hc : view (l.owed d) (l.lastM d) with
+            | none =>
+              have h0 := view_none_zero _ _ (hi.owedMeta d) hc
+              have hq := hi.quiet f hf d h0
+              rw [hp, hc]
+              simp only [h0, Nat.zero_add]
+              rw [hq]
+              exact hv.symm
+            | some c =>
+              obtain ⟨hcm, hcn, hcpos⟩ := (view_some_iff _ _ c).mp hc
+              rw [hp, hc]
+              simp only
+              symm
+              rw [view_some_iff]
+              exact ⟨hcm, by simp; omega, by omega⟩
+        · intro d; simpa [step, hb, Ledger.step, hf] using hr.paid d
+        · intro _; simp [step, hb]
+        · intro f' h; simp [Ledger.step, hf] at h
+        · intro d; simpa [step, hb, Ledger.step, hf] using hr.reports d
+        · intro d hd
+          simp only [Ledger.step, hf] at hd ⊢
+          by_cases h0 : l.owed d = 0
+          · have hq := hi.quiet f hf d h0
+            rw [hq]
+            exact hi.flyMetaSome f hf d (by omega)
+          · exact hi.owedMeta d (by omega)
+        · intro f' h; simp [Ledger.step, hf] at h
+        · intro f' h; simp [Ledger.step, hf] at h
+
+theorem refines_runSer (s : St) (l : Ledger) (ops : List Op) (hr : Refines s l) (hi : LedgerInv l) :
+    Refines (runSer s ops) (l.run ops) ∧ LedgerInv (l.run ops) := by
+  induction ops generalizing s l with
+  | nil => exact ⟨hr, hi⟩
+  | cons o os ih =>
+    obtain ⟨hr', hi'⟩ := refines_stepSer s l o hr hi
+    exact ih _ _ hr' hi'
+
+
+theorem runSer_append (s : St) (a b : List Op) : runSer s (a ++ b) = runSer (runSer s a) b := by
+  induction a generalizing s with
+  | nil => rfl
+  | cons o os ih => simp [runSer, ih]
+
+/-- An op list that consists of `record` calls only. -/
+def RecordsOnly (ops : List Op) : Prop := ∀ o ∈ ops, ∃ d m, o = Op.record d m
+
+/-- Records change neither the uploads in flight nor what has been delivered. -/
+theorem records_frame (s : St) (ops : List Op) (h : RecordsOnly ops) :
+    (runSer s ops).inflight = s.inflight ∧ (runSer s ops).delivered = s.delivered ∧
+      (runSer s ops).log = s.log := by
+  induction ops generalizing s with
+  | nil => simp [runSer]
+  | cons o os ih =>
+    obtain ⟨d, m, rfl⟩ := h o (by simp)
+    have := ih (stepSer s (.record d m)) (fun o ho => h o (by simp [ho]))
+    simp only [runSer]
+    rw [this.1, this.2.1, this.2.2]
+    simp [stepSer, blocked, step]
+
+theorem pending_pos (ops : List Op) (d : Dev) (r : Rec)
+    (h : (runSer St.init ops).pending d = some r) : 0 < r.n := by
+  obtain ⟨hr, _⟩ := refines_runSer St.init Ledger.init ops refines_init ledgerInv_init
+  have := hr.pend d
+  rw [h] at this
+  have := (view_some_iff _ _ r).mp this.symm
+  omega
+
+
+theorem begin_quiescent (s : St) (hq : s.inflight = []) :
+    (stepSer s .begin).inflight = [⟨s.pending, s.last⟩] ∧ (stepSer s .begin).delivered = s.delivered ∧
+      (stepSer s .begin).log = s.log := by
+  simp [stepSer, blocked, hq, step]
+
+theorem endOk_single (s : St) (b : Batch) (h : s.inflight = [b]) :
+    (stepSer s (.endOk 0)).log = s.log ++ [b.recs] ∧
+      (∀ d, (stepSer s (.endOk 0)).delivered d = s.delivered d + cnt b.recs d) ∧
+      (stepSer s (.endOk 0)).inflight = [] := by
+  simp [stepSer, blocked, step, h]
+
+theorem endFail_single (s : St) (b : Batch) (h : s.inflight = [b]) :
+    (stepSer s (.endFail 0)).log = s.log ∧ (stepSer s (.endFail 0)).delivered = s.delivered ∧
+      (stepSer s (.endFail 0)).inflight = [] := by
+  simp [stepSer, blocked, step, h]
+
+/-- Shape of a run that cuts a batch after `pre`, lets `mid` happen and ends the upload. -/
+theorem run_upload_shape (pre mid : List Op) (e : Op) :
+    runSer St.init (pre ++ .begin :: (mid ++ [e])) =
+      stepSer (runSer (stepSer (runSer St.init pre) .begin) mid) e := by
+  rw [runSer_append]; simp only [runSer]; rw [runSer_append]; simp [runSer]
+
+theorem countRec_append (d : Dev) (a b : List Op) : countRec d (a ++ b) = countRec d a + countRec d b := by
+  induction a with
+  | nil => simp [countRec]
+  | cons o os ih => rw [List.cons_append, countRec_cons d o, countRec_cons d o os, ih]; omega
+
+theorem lastRec_append (d : Dev) (a b : List Op) :
+    lastRec d (a ++ b) = (lastRec d b).or (lastRec d a) := by
+  induction a with
+  | nil => simp [lastRec]
+  | cons o os ih =>
+    rw [List.cons_append, lastRec_cons d o, lastRec_cons d o os, ih]
+    cases lastRec d b <;> simp
+
+
+/-! ### The uploader -/
+
+theorem sendAll_ok (b : Backend) (i : Nat) (ws : List Wire) (h : (sendAll b i ws).1 = true) :
+    (sendAll b i ws).2 = ws := by
+  induction ws generalizing i with
+  | nil => simp [sendAll]
+  | cons w ws ih =>
+    simp only [sendAll] at h ⊢
+    split at h
+    · simp at h
+    · rename_i hne
+      simp only [hne, if_false]
+      simp at h
+      rw [ih (i + 1) h]
+
+theorem sendAll_ok_iff (b : Backend) (i : Nat) (ws : List Wire) :
+    (sendAll b i ws).1 = true ↔ ∀ j, j < ws.length → b.sendFailsAt ≠ some (i + j) := by
+  induction ws generalizing i with
+  | nil => simp [sendAll]
+  | cons w ws ih =>
+    simp only [sendAll]
+    split
+    · rename_i he
+      simp only [Bool.false_eq_true, false_iff]
+      intro h
+      exact h 0 (by simp) (by simpa using he)
+    · rename_i hne
+      simp only
+      rw [ih (i + 1)]
+      constructor
+      · intro h j hj
+        cases j with
+        | zero => simpa using hne
+        | succ k =>
+          have := h k (by simp at hj; omega)
+          rwa [show i + 1 + k = i + (k + 1) by omega] at this
+      · intro h j hj
+        have := h (j + 1) (by simp; omega)
+        rwa [show i + (j + 1) = i + 1 + j by omega] at this
+
 end Agd.BillStat
